@@ -38,10 +38,13 @@ type H struct {
 	c        *vh.Ctx
 	barrierN uint32
 	maxLen   int
+	// held-TCP-up scenarios (hold.go)
+	heldBurst int
+	holdFor   time.Duration
 }
 
 func main() {
-	mode := flag.String("mode", "all", "all | seq | second")
+	mode := flag.String("mode", "all", "all | seq | held | second")
 	c := vh.New()
 	h := &H{c: c, maxLen: 30}
 	if c.Tier == "thorough" {
@@ -55,6 +58,13 @@ func main() {
 		h.corpus()
 		h.random(c.N)
 		h.randomBurst(c.N / 2)
+	}
+	if *mode == "all" || *mode == "held" {
+		rounds := 1
+		if c.Tier == "thorough" {
+			rounds = 8
+		}
+		h.held(rounds)
 	}
 	if *mode == "all" || *mode == "second" {
 		n := 6
@@ -83,12 +93,22 @@ type genResult struct {
 // fence sends a Linktest.req barrier and collects every frame read before its Linktest.rsp.
 // down: the link ended instead. timeout: neither happened within stepTimeout.
 func (h *H) fence(p *Peer) (bar Frame, rsp Frame, outs []Frame, down, timeout bool) {
-	h.barrierN++
-	bar = Frame{Sid: 0xFFFF, ST: 5, Sys: barrierBase + h.barrierN&0x00FFFFFF}
+	bar = h.newBarrier()
 	if err := p.Send(bar); err != nil {
 		outs, down, timeout = h.drain(p)
 		return
 	}
+	rsp, outs, down, timeout = h.collect(p, bar)
+	return
+}
+
+func (h *H) newBarrier() Frame {
+	h.barrierN++
+	return Frame{Sid: 0xFFFF, ST: 5, Sys: barrierBase + h.barrierN&0x00FFFFFF}
+}
+
+// collect reads every frame up to the Linktest.rsp answering bar.
+func (h *H) collect(p *Peer, bar Frame) (rsp Frame, outs []Frame, down, timeout bool) {
 	for {
 		f, res := p.Next(stepTimeout)
 		switch res {
